@@ -1,4 +1,8 @@
 import Brax.Lemmas.C04Real
+import Brax.Lemmas.C04Rest2
+import Brax.Lemmas.C04PosRest
+import Brax.Lemmas.C04Gen
+import Brax.Props.C08
 import Mathlib.Tactic.IntervalCases
 /-!
 # C04 — internal forces obey Newton's first and third laws
@@ -22,6 +26,11 @@ forest (any number of links) and every control history.
 * rest case (partial): `jointForce_restLink`, `rest_stays_at_rest_spring_partial`,
   `rest_stays_at_rest_positional_partial`, `jointDisplacements_free_link`; full statements as a
   comment block (`…Stmt`).
+* rest case, deepened (section `deepen`, ℝ): `rest_stays_at_rest_generalized` (the whole
+  generalized step, every link type), `gaussSolve_zero_rhs`, `jointForce_pureStack`,
+  `rest_stays_at_rest_spring_stacks` (spring: free, 1-dof and the six 2- and 3-dof stack kinds),
+  `jointForce_forward_pureStack` (link level: `world_to_joint ∘ forward` feeds `jcalc q`),
+  `threeDofJointUpdate_oneDof`, `rest_stays_at_rest_positional_oneDof` (positional: free + 1-dof).
 
 Helper lemmas live in `Brax/Lemmas/C04*.lean`.
 -/
@@ -292,15 +301,24 @@ theorem jointDisplacements_free_link (s : Sys K) (j a_p : List (Tf K)) {i : Nat}
     (nth (Positional.jointDisplacements s j a_p) i).1 = 0 :=
   jointDisplacements_free s j a_p hi hfree
 
-/- FULL statements (not proved; what is missing is named in notes/C04.md):
+/- FULL statements and what is proved of them (details: notes/C04-deepen.md):
 
 def rest_stays_at_rest_springStmt : Prop :=
   ∀ (inv : …) (cf : …) (s : Sys ℝ) (q : List ℝ) (act : List ℝ),
     s.WF = true → Quiet s → C01.KinOK s q (zeros s.nv) → InsideLimits s q →
     (∀ x, cf x = []) → (∀ j jd, inv j jd = Inv.inverse s j jd) →
     Spring.step inv cf s (Spring.init s q (zeros s.nv)) act = Spring.init s q (zeros s.nv)
-    -- every link type; needs world_to_joint (forward q) = jcalc q (C08 `worldToJoint_forward`)
-    -- and, for 2- and 3-dof links, the Euler-angle identities psi/theta/phi (jcalc q) = q.
+    -- PROVED (section `deepen`): the state-level form for every supported link type —
+    --   `rest_stays_at_rest_spring_stacks`: a consistent state at rest whose links are free, 1-dof
+    --   (`RestLink`) or one of the six 2- and 3-dof stack kinds of `PureStack` with `j_i = jcalc q_i`
+    --   is returned unchanged (gap (b): `jointForce_pureStack`, from C08's Euler-angle identities);
+    --   `jointForce_forward_pureStack`: for one link, the `j` that `world_to_joint` computes from
+    --   `forward`'s pose is `jcalc q` (gap (a), C08 `worldToJoint_forward_id`), so its force is 0.
+    -- NOT PROVED: the system-level composition "state = Spring.init s q 0" (needs, for every link
+    --   of the tree at once: `forward` as the per-link `fwdLink` recursion with unit quaternions,
+    --   `xd = 0 ⇒ jd = 0`, and `inv (world_to_joint (forward q)) = (q, 0)`, i.e. C08's
+    --   `inverse_*` theorems with the velocity part).  Stacks outside `PureStack` are FALSE of the
+    --   code (known findings F1/F2).
 
 def rest_stays_at_rest_positionalStmt : Prop :=
   the same with Positional.step / Positional.init; additionally needs
@@ -308,13 +326,152 @@ def rest_stays_at_rest_positionalStmt : Prop :=
   identities for the three limit axes).  On the pinned tree it was FALSE for a left-handed
   three-hinge stack with a limited middle joint (defect D7, found by this check's rest clause,
   repaired in /repo by commit f5f04c1; witness in notes/C04-D7.md).
+  -- PROVED (section `deepen`): `threeDofJointUpdate_oneDof` (hinge / slide, unit axis, inside the
+  --   limits) and with it `rest_stays_at_rest_positional_oneDof` (state-level form: free and 1-dof
+  --   links).  NOT PROVED: `threeDofJointUpdate = 0` for 2- and 3-dof links; the system-level
+  --   composition with `Positional.init` (as for the spring pipeline).
 
 def rest_stays_at_rest_generalizedStmt : Prop :=
-  generalized pipeline: `qf_smooth = 0` at `qd = 0`, `g = 0` (RNE bias vanishes) ⇒ `qdd = 0`
-  (belongs to C02's model; observed by the harness on every run).
+  generalized pipeline: `qf_smooth = 0` at `qd = 0`, `g = 0` (RNE bias vanishes) ⇒ `qdd = 0`.
+  -- PROVED in full for C02's model `Gd.step` (every link type, every tree, free-link quaternion
+  --   included): `rest_stays_at_rest_generalized` + `gaussSolve_zero_rhs` (section `deepen`).
+  --   The constraint force enters as the parameter `qfc = 0` (no contact; inactive limits: C06).
 -/
 
 end forces
+
+/-! ## rest case, deepened (ℝ): generalized pipeline; spring pipeline with 2- and 3-dof links -/
+section deepen
+open Kin
+
+/-- **Newton's first law, generalized pipeline — every link type, every tree.**
+`Gd.step` is C02's model of `generalized/pipeline.step` (`qf_smooth = passive − bias + tau`,
+`qdd = solve (M + dt·D) (qf_smooth + qf_constraint)`, semi-implicit Euler, quaternion integration of
+free links, refreshed dynamics terms); `dynInit s q 0` is what `pipeline.init(sys, q, 0)` computes.
+For a system with consistent shapes and unit free-link quaternions (`C04G.RestOK`), without gravity,
+without joint stiffness, with vanishing actuator force (`toTau … = 0`: no actuators, or zero control
+inside the control range with `biasQ = biasQd = 0` and force range containing 0 —
+`C04G.toTau_zero`, `C04G.actForce_zero_ctrl`), zero constraint force (no contact; limits inactive:
+C06), a linear solve with `solve M′ 0 = 0` for the matrix at hand, and `|dt| ≤ 1`: the step returns
+**literally** `q′ = q`, `q̇′ = 0`, `q̈ = 0` and the same dynamics terms.  The free-link quaternion is
+also returned literally: `_integrate_q_free` multiplies it by `(cos(dt·1e-8/2), 0, 0, 0)` (its
+`+1e-8` guard) and renormalises, which is the identity on unit quaternions as that cosine is
+positive (`C04G.integrateQFree_rest`). -/
+theorem rest_stays_at_rest_generalized (solve : List (List ℝ) → List ℝ → List ℝ) (s : Sys ℝ)
+    (q act : List ℝ) (h : C04G.RestOK s q) (hg : s.gravity = V3.zero)
+    (hstiff : ∀ d ∈ s.dofs, d.stiffness = 0)
+    (htau : Gd.toTau s.nv s.acts act q (List.replicate s.nv 0) = List.replicate s.nv 0)
+    (hsolve : solve (Gd.dampedMatrix (Gd.dynInit s q (List.replicate s.nv 0)).massMx
+        (s.dofs.map (·.damping)) s.dt) (List.replicate s.nv 0) = List.replicate s.nv 0)
+    (hdt : |s.dt| ≤ 1) :
+    Gd.step solve s (Gd.dynInit s q (List.replicate s.nv 0)) q (List.replicate s.nv 0) act
+        (List.replicate s.nv 0)
+      = ((q, List.replicate s.nv 0, List.replicate s.nv 0),
+         Gd.dynInit s q (List.replicate s.nv 0)) :=
+  C04G.step_rest solve s q act h hg hstiff htau hsolve hdt
+
+/-- the hypothesis `hsolve` holds for the exact solve the driver uses (Gauss–Jordan with partial
+pivoting): the damped mass matrix of `pipeline.init` is square of size `nv`, and `gaussSolve M 0 = 0`
+for every square `M` (singular or not) -/
+theorem gaussSolve_zero_rhs (s : Sys ℝ) (q : List ℝ) (h : C04G.RestOK s q) :
+    Gd.gaussSolve (Gd.dampedMatrix (Gd.dynInit s q (List.replicate s.nv 0)).massMx
+        (s.dofs.map (·.damping)) s.dt) (List.replicate s.nv 0) = List.replicate s.nv 0 :=
+  C04G.gaussSolve_rest s q h
+
+/-- **spring joint force of a 2- and 3-dof link in a pure joint configuration** (`C04L.PureStack`: two /
+three hinges with orthonormal axes of either handedness, two / three orthonormal slides, one or two
+slides followed by a hinge; coordinates inside the chart and the limits): `_two_dof` / `_three_dof`
+return the zero force at `j = jcalc q`, `jd = 0`, `tau = 0` — the Euler angles `axis_angle_ang`
+extracts from `jcalc q` are `q` (C08's `hinge2_angles`, `hinge3_angles`, `hinge_theta`,
+`hinge_phi`), the plane-alignment / pinning torques vanish, the offset lies in the span of the slide
+axes. -/
+theorem jointForce_pureStack (hasLimit : Bool) (lk : LinkP ℝ) (lq l : LinkIn ℝ)
+    (h : PureStack hasLimit lq) (ht : l.typ = lq.typ) (hd : l.dofs = lq.dofs)
+    (htau : l.qd = List.replicate lq.dofs.length 0) :
+    Spring.jointForce hasLimit lk (Kin.jcalc lq).1 ⟨⟨0, 0, 0⟩, ⟨0, 0, 0⟩⟩ l = ⟨0, 0⟩ :=
+  C04L.jointForce_pureStack hasLimit lk lq l h ht hd htau
+
+/-- … and the `j` that `world_to_joint` computes from the pose `forward` gives the link **is**
+`jcalc q` (C08's `worldToJoint_forward_id`: unit parent and link-frame quaternions, identity joint
+orientation as `mjcf.load_model` writes), so the joint force computed from the link's world pose
+vanishes — gaps (a) and (b) closed at the level of one link. -/
+theorem jointForce_forward_pureStack (hasLimit : Bool) (lk : LinkP ℝ) (lq l : LinkIn ℝ)
+    (parent : Option (Tf ℝ × Motion ℝ))
+    (hp : Q4.normSq (Inv.parentOr parent).1.rot = 1) (hlk : Q4.normSq lk.tf.rot = 1)
+    (hjr : lk.joint.rot = ⟨1, 0, 0, 0⟩)
+    (h : PureStack hasLimit lq) (ht : l.typ = lq.typ) (hd : l.dofs = lq.dofs)
+    (htau : l.qd = List.replicate lq.dofs.length 0) :
+    Spring.jointForce hasLimit lk
+      (Inv.w2jLink lk (Inv.parentOr parent).1 (Inv.parentOr parent).2
+        (Inv.fwdLink parent lk lq).1 (Inv.fwdLink parent lk lq).2).1
+      ⟨⟨0, 0, 0⟩, ⟨0, 0, 0⟩⟩ l = ⟨0, 0⟩ := by
+  rw [C08.worldToJoint_forward_id parent lk lq hp hlk hjr h.unit]
+  exact C04L.jointForce_pureStack hasLimit lk lq l h ht hd htau
+
+/-- **Newton's first law, spring pipeline — free links, 1-dof links and the six 2- and 3-dof stack
+kinds.**  Strengthens `rest_stays_at_rest_spring_partial` (ℝ): every link is free, or a 1-dof link
+satisfying `RestLink`, or a 2- and 3-dof link whose joint transform is the pure joint configuration
+`jcalc q` of a `PureStack` with no joint-frame velocity.  Then `spring.pipeline.step` returns the
+state unchanged.  (Stacks outside `PureStack` — hinge-then-slide, non-orthogonal axes — really move:
+known findings F1/F2.) -/
+theorem rest_stays_at_rest_spring_stacks (inv : List (Tf ℝ) → List (Motion ℝ) → List ℝ × List ℝ)
+    (cf : List (Tf ℝ) → List (Contact ℝ)) (s : Sys ℝ) (st : Spring.State ℝ) (act : List ℝ)
+    (hc : SpringConsistent inv s st) (hq : Quiet s)
+    (hrest : ∀ i, i < s.numLinks → nth st.xd i = ⟨0, 0⟩)
+    (hunit : ∀ i, i < s.numLinks → Q4.normSq (nth st.x i).rot = 1)
+    (hcf : cf st.x = [])
+    (hlinks : ∀ i, i < s.numLinks → ∀ l,
+      (Kin.linkSlices s.types ([] : List ℝ) (List.replicate s.nv 0) s.dofs)[i]? = some l →
+        RestLink s.hasLimit (nth st.j i) (nth st.jd i) l
+        ∨ ∃ lq, PureStack s.hasLimit lq ∧ l.typ = lq.typ ∧ l.dofs = lq.dofs
+            ∧ l.qd = List.replicate lq.dofs.length 0
+            ∧ nth st.j i = (Kin.jcalc lq).1 ∧ nth st.jd i = ⟨⟨0, 0, 0⟩, ⟨0, 0, 0⟩⟩) :
+    Spring.step inv cf s st act = st := by
+  apply spring_rest_of_zero_jointForces inv cf s st act hc hq hrest hunit hcf
+  intro i hi
+  unfold Spring.jointForces
+  rw [nth_tab _ hi]
+  cases hl : (Kin.linkSlices s.types ([] : List ℝ) (List.replicate s.nv 0) s.dofs)[i]? with
+  | none => rfl
+  | some l =>
+    rcases hlinks i hi l hl with h | ⟨lq, hps, ht, hd, htau, hj, hjd⟩
+    · exact jointForce_restLink _ _ _ _ _ h
+    · simp only [hj, hjd]
+      exact C04L.jointForce_pureStack _ _ lq l hps ht hd htau
+
+/-- **positional pipeline: `_three_dof_joint_update = 0` for 1-dof links** (gap (c), 1-dof part):
+for a hinge about a unit axis at `q ∈ (−π, π]` or a slide along a unit axis at `|q| ≤ 2`, inside the
+limits, the joint-frame correction computed from `jcalc q` and the link's `_sphericalize` data (own
+axis + two frozen pad axes) is zero — the three signed angles are `(q, 0, 0)`, clipping inside the
+limits leaves them, and the translational rest is removed by the coordinate-wise prismatic mask. -/
+theorem threeDofJointUpdate_oneDof (hasLimit : Bool) (lq l : LinkIn ℝ) (h : PureOne hasLimit lq)
+    (ht : l.typ = lq.typ) (hd : l.dofs = lq.dofs) :
+    Positional.threeDofJointUpdate (Kin.jcalc lq).1 (Positional.sphericalize hasLimit l).1
+      (Positional.sphericalize hasLimit l).2 = (⟨0, 0, 0⟩, ⟨0, 0, 0⟩) :=
+  threeDofJointUpdate_pureOne hasLimit lq l h ht hd
+
+/-- **Newton's first law, positional pipeline — free links and 1-dof links.**  Discharges the
+hypothesis `hdisp` of `rest_stays_at_rest_positional_partial` (ℝ): every link is free, or a 1-dof
+link whose joint transform is the pure joint configuration `jcalc q` (`PureOne`: hinge or slide,
+unit axis, inside the chart and the limits).  Then `positional.pipeline.step` returns the state
+unchanged.  (Not covered: 2- and 3-dof links in the positional pipeline.) -/
+theorem rest_stays_at_rest_positional_oneDof
+    (inv : List (Tf ℝ) → List (Motion ℝ) → List ℝ × List ℝ)
+    (cf : List (Tf ℝ) → List (Contact ℝ)) (s : Sys ℝ) (st : Positional.State ℝ) (act : List ℝ)
+    (hc : PosConsistent inv s st) (hq : Quiet s) (hdt : s.dt ≠ 0)
+    (hrest : ∀ i, i < s.numLinks → nth st.xd i = ⟨0, 0⟩)
+    (hjd : ∀ i, i < s.numLinks → nth st.jd i = ⟨⟨0, 0, 0⟩, ⟨0, 0, 0⟩⟩)
+    (hunit : ∀ i, i < s.numLinks → Q4.normSq (nth st.x i).rot = 1)
+    (hcf : ∀ x, cf x = [])
+    (hlinks : ∀ i, i < s.numLinks → ∀ l,
+      (Kin.linkSlices s.types ([] : List ℝ) [] s.dofs)[i]? = some l →
+        l.typ = .free ∨ ∃ lq, PureOne s.hasLimit lq ∧ l.typ = lq.typ ∧ l.dofs = lq.dofs
+          ∧ nth st.j i = (Kin.jcalc lq).1) :
+    Positional.step inv cf s st act = st :=
+  rest_stays_at_rest_positional_partial inv cf s st act hc hq hdt hrest hjd hunit hcf
+    (fun i hi => jointDisplacements_zero s st.j st.a_p hi (hlinks i hi))
+
+end deepen
 
 /-! ## the three-body remark, non-vacuity -/
 section witness
@@ -395,6 +552,88 @@ example (inv : List (Tf ℝ) → List (Motion ℝ) → List ℝ × List ℝ) (st
 example (c sn : ℝ) :
     V3.cross (⟨0, 0, 1⟩ : V3 ℝ) (rotate ⟨0, 0, 1⟩ (⟨c, 0, 0, sn⟩ : Q4 ℝ)) = ⟨0, 0, 0⟩ := by
   simp [rotate, V3.cross, V3.dot, Q4.vec]
+
+/-! ### non-vacuity of the deepened rest theorems -/
+
+/-- a link / dof with unit data -/
+noncomputable def exLkG : LinkP ℝ :=
+  { tf := ⟨⟨0, 0, 0⟩, ⟨1, 0, 0, 0⟩⟩, joint := ⟨⟨0, 0, 0⟩, ⟨1, 0, 0, 0⟩⟩,
+    inertia := ⟨⟨⟨0, 0, 0⟩, ⟨1, 0, 0, 0⟩⟩, ⟨⟨1, 0, 0⟩, ⟨0, 1, 0⟩, ⟨0, 0, 1⟩⟩, 1⟩,
+    invweight := 1, cStiffness := 1, cVelDamping := 1, cLimitStiffness := 1, cAngDamping := 1 }
+noncomputable def exDofG (ang vel : V3 ℝ) (lo hi : Option ℝ) : DofP ℝ :=
+  { motion := ⟨ang, vel⟩, armature := 0, stiffness := 0, damping := 1 / 10, lo := lo, hi := hi,
+    invweight := 1 }
+
+/-- a free root carrying a hinge about `z`: no gravity, no actuators, no stiffness -/
+noncomputable def exSysG : Sys ℝ :=
+  { types := [.free, .one], parents := [-1, 0], links := [exLkG, exLkG],
+    dofs := [exDofG ⟨0, 0, 0⟩ ⟨1, 0, 0⟩ none none, exDofG ⟨0, 0, 0⟩ ⟨0, 1, 0⟩ none none,
+      exDofG ⟨0, 0, 0⟩ ⟨0, 0, 1⟩ none none, exDofG ⟨1, 0, 0⟩ ⟨0, 0, 0⟩ none none,
+      exDofG ⟨0, 1, 0⟩ ⟨0, 0, 0⟩ none none, exDofG ⟨0, 0, 1⟩ ⟨0, 0, 0⟩ none none,
+      exDofG ⟨0, 0, 1⟩ ⟨0, 0, 0⟩ (some (-1)) (some 1)],
+    hasLimit := true, acts := [], gravity := ⟨0, 0, 0⟩, dt := 0.002, velDamping := 0,
+    angDamping := 0, baumgarteErp := 0.1, springMassScale := 0, springInertiaScale := 0,
+    jointScaleAng := 0.2, jointScalePos := 0.5, collideScale := 1 }
+
+/-- free root at height 1 turned by the unit quaternion `(3/5, 0, 4/5, 0)`, hinge at 0.3 -/
+noncomputable def exQG : List ℝ := [0, 0, 1, 3 / 5, 0, 4 / 5, 0, 3 / 10]
+
+theorem exSysG_restOK : C04G.RestOK exSysG exQG := by
+  refine ⟨rfl, rfl, rfl, rfl, ?_⟩
+  intro l hl hf
+  have hnv : exSysG.nv = 7 := rfl
+  rw [hnv] at hl
+  simp only [exSysG, exQG, Kin.linkSlices, LinkType.qWidth, LinkType.qdWidth, List.take, List.drop,
+    List.mem_cons, List.not_mem_nil, or_false] at hl
+  rcases hl with rfl | rfl
+  · simp [Q4.normSq]; norm_num
+  · exact absurd hf (by simp)
+
+/-- all hypotheses of `rest_stays_at_rest_generalized` hold together (with the driver's exact
+solve): the concrete system stays exactly at rest -/
+example (act : List ℝ) :
+    Gd.step Gd.gaussSolve exSysG (Gd.dynInit exSysG exQG (List.replicate exSysG.nv 0)) exQG
+        (List.replicate exSysG.nv 0) act (List.replicate exSysG.nv 0)
+      = ((exQG, List.replicate exSysG.nv 0, List.replicate exSysG.nv 0),
+         Gd.dynInit exSysG exQG (List.replicate exSysG.nv 0)) :=
+  rest_stays_at_rest_generalized Gd.gaussSolve exSysG exQG act exSysG_restOK rfl
+    (by intro d hd; simp [exSysG] at hd; rcases hd with rfl | rfl | rfl | rfl | rfl | rfl | rfl <;> rfl)
+    (C04G.toTau_nil _ _ _ _) (gaussSolve_zero_rhs exSysG exQG exSysG_restOK)
+    (by simp [exSysG]; rw [abs_le]; constructor <;> norm_num)
+
+/-- `PureStack` is satisfiable: a limited left-handed three-hinge stack `(x, y, −z)` (the stack of
+defect D7) at `q = (0.5, 0.3, −0.4)` inside its limits `[-1, 1]` … -/
+example : PureStack true
+    ⟨.three, [1 / 2, 3 / 10, -2 / 5], [0, 0, 0],
+      [exDofG ⟨1, 0, 0⟩ ⟨0, 0, 0⟩ (some (-1)) (some 1), exDofG ⟨0, 1, 0⟩ ⟨0, 0, 0⟩ (some (-1)) (some 1),
+       exDofG ⟨0, 0, -1⟩ ⟨0, 0, 0⟩ (some (-1)) (some 1)]⟩ := by
+  have hpi := Real.two_le_pi
+  refine PureStack.hhh _ _ _ ⟨1, 0, 0⟩ ⟨0, 1, 0⟩ ⟨0, 0, -1⟩ _ _ _ 0 0 0 rfl rfl rfl rfl
+    (by simp [V3.dot]) (by simp [V3.dot]) (by simp [V3.dot]) (Or.inr (by simp [V3.cross]))
+    (by linarith) (by linarith) (by rw [abs_le]; constructor <;> norm_num) (by linarith) (by linarith)
+    ?_ ?_ ?_
+  all_goals
+    intro _
+    refine ⟨fun l hl => ?_, fun u hu => ?_⟩
+    · simp [exDofG] at hl; rw [← hl]; norm_num
+    · simp [exDofG] at hu; rw [← hu]; norm_num
+
+/-- … and a slide-then-hinge stack -/
+example : PureStack false
+    ⟨.two, [-3 / 2, 6 / 5], [0, 0],
+      [exDofG ⟨0, 0, 0⟩ ⟨0, 3 / 5, 4 / 5⟩ none none, exDofG ⟨2 / 3, -1 / 3, 2 / 3⟩ ⟨0, 0, 0⟩ none none]⟩ :=
+  PureStack.sh _ _ ⟨0, 3 / 5, 4 / 5⟩ ⟨2 / 3, -1 / 3, 2 / 3⟩ _ _ 0 0 rfl rfl rfl
+    (by simp [V3.dot]; norm_num) (by simp [V3.dot]; norm_num)
+    (by rw [abs_le]; constructor <;> norm_num) (by rw [abs_le]; constructor <;> norm_num)
+    (by intro h; cases h) (by intro h; cases h)
+
+/-- `PureOne` is satisfiable: a limited hinge about `(2/3, −1/3, 2/3)` at `q = 0.7 ∈ [−1, 1]` -/
+example : PureOne true ⟨.one, [7 / 10], [0], [exDofG ⟨2 / 3, -1 / 3, 2 / 3⟩ ⟨0, 0, 0⟩ (some (-1)) (some 1)]⟩ := by
+  have hpi := Real.two_le_pi
+  refine PureOne.hinge _ ⟨2 / 3, -1 / 3, 2 / 3⟩ _ 0 rfl rfl (by simp [V3.dot]; norm_num) (by linarith)
+    (by linarith) (fun _ => ⟨fun l hl => ?_, fun u hu => ?_⟩)
+  · simp [exDofG] at hl; rw [← hl]; norm_num
+  · simp [exDofG] at hu; rw [← hu]; norm_num
 
 end witness
 
